@@ -299,6 +299,11 @@ impl<'a> Gen<'a> {
 		let w = self.sw.w_seg;
 		match self.rng.weighted(&w) {
 			0 => {
+				// now and then a look-alike of a dot segment
+				const DOTTY: &[&str] = &["...", "a..", "..a", ".a", "a.", "%2E", "%2E%2E", ".%2e", "..%2F"];
+				if self.rng.chance(1, 8) {
+					return self.rng.pick(DOTTY).to_string();
+				}
 				let n = self.len_small();
 				self.chars(n, b"")
 			}
